@@ -736,7 +736,7 @@ func TestC08(t *testing.T) {
 			m.Count("boundary_length_histories", 1)
 		}
 		m.Distinct(fmt.Sprintf("%s len=%s chunks=%s ns=%s ops=%s out=%s", v.name, lc.name, style, nsClass, ops, outClass))
-		if i < 6 {
+		if i%331 == 47 {
 			m.Sample(map[string]any{"variant": v.name, "msg_len": msgLen, "chunks": chunks, "N_len": len(c.n), "S_len": len(c.s), "out_len": outN, "ops": len(c.log), "interleaved": ops})
 		}
 	})
@@ -748,7 +748,7 @@ func TestC08(t *testing.T) {
 	m.Gate("boundary_length_histories", q(3000, 120000), "message length scheduled at 0,1,k·rate±2")
 	m.Gate("write_after_read_panics", q(2000, 80000), "documented Write-after-Read panic observed")
 	m.Gate("sum_after_read_panics", q(1500, 60000), "documented Sum-after-Read panic observed")
-	m.Gate("clone_after_read_checked", q(1500, 60000), "clone of a squeezing state continued and probed")
+	m.Gate("clone_after_read_checked", q(1200, 48000), "clone of a squeezing state continued and probed")
 	m.Gate("clones_diverged", q(2500, 100000), "clones written to independently and compared")
 	m.Gate("resets_after_read", q(500, 20000), "Reset after Read followed by Sum+Write probe")
 	m.Gate("cshake_empty_NS_equals_shake", q(50, 2000), "cSHAKE with empty N and S compared with SHAKE definition (and gcrypt SHAKE)")
